@@ -82,6 +82,9 @@ impl BarState {
 
         if let Reset::All = mode {
             self.state.pos.reset(now);
+            // The position restarts from 0, so the estimator must not measure the next step
+            // against the position reached before the reset.
+            self.state.est.prev_steps = 0;
             self.state.status = Status::InProgress;
 
             for tracker in self.style.format_map.values_mut() {
